@@ -1106,7 +1106,7 @@ fn execute(sc: &Scenario, rng: u64) -> Result<Vec<StepObs>, String> {
                                 }
                                 Follow::Respond { code, via, shift } => {
                                     let source = if *shift {
-                                        SocketAddr::new(peer_addr.ip(), peer_addr.port() + 1)
+                                        SocketAddr::new(peer_addr.ip(), peer_addr.port().wrapping_add(1))
                                     } else {
                                         peer_addr
                                     };
@@ -2086,6 +2086,9 @@ pub enum PortSel {
     P5060,
     P5061,
     P5099,
+    /// the ends of the port range: an explicit :0 and :65535 are ports like any other (seeded change C14-11)
+    P0,
+    P65535,
 }
 
 #[derive(Serialize, Deserialize, Clone, Debug, Hash)]
@@ -2266,7 +2269,9 @@ fn seq_step() -> impl Strategy<Value = SeqStep> {
                 4 => Just(PortSel::Default),
                 2 => Just(PortSel::P5061),
                 2 => Just(PortSel::P5060),
-                1 => Just(PortSel::P5099)
+                1 => Just(PortSel::P5099),
+                1 => Just(PortSel::P0),
+                1 => Just(PortSel::P65535)
             ],
         ),
         (
@@ -2367,6 +2372,8 @@ fn lower_seq(c: &SeqCase) -> Scenario {
                     PortSel::P5060 => Some(5060),
                     PortSel::P5061 => Some(5061),
                     PortSel::P5099 => Some(5099),
+                    PortSel::P0 => Some(0),
+                    PortSel::P65535 => Some(65535),
                 },
                 &s.uri,
             );
@@ -3122,7 +3129,7 @@ pub fn property() -> Property {
     Property {
         fuzz: vec![],
         id: "C14",
-        rule: "config: every combination of {UDP/v4, UDP/v6, secure datagram/v4, secure datagram/v6} subsets x insecure factory {absent, connects, refuses} x secure factory {absent, connects, refuses} (both registration orders when both are present) x pre-existing connection {none, insecure outbound to the destination, secure outbound to the destination, secure outbound to the same host other port, secure outbound to another host, secure inbound from the destination} (all held by a TpHandle) x {sip, sips} x {IPv4, IPv6 literal} x {no port, :5099} x target info {empty, pinned to a secure / an insecure transport outside the configuration with a foreign destination}; one OPTIONS request per configuration, each in its own paused-clock world. bound-addr: the same space with other bound() addresses of the datagram transports - every non-empty datagram subset x bind variant {IPv4: 10.0.0.1, 0.0.0.0, 127.0.0.1; IPv6: fd00::1, [::], [::1], [::ffff:10.0.0.1]} per family, shared by the insecure and the secure transport of the family (thorough: per transport), the all-concrete combination left to config x insecure factory {absent, connects, refuses} x secure factory {absent, connects, refuses} (both registration orders) x pre-existing connection {none, insecure outbound to the destination, secure outbound to the destination} x {sip, sips} x {IPv4, IPv6 literal} (thorough: x {no port, :5099}), empty target info; non-trivial additionally: no datagram transport of the destination's family is eligible while one of the other family bound to a wildcard / loopback / IPv4-mapped address fits the security requirement (only the family rule keeps the request off it). uri-text: the target URI is text read by ezk before it becomes the request target - reader {SipUri::from_str, Endpoint::parse_uri, request line / Contact name-addr / Contact addr-spec of a received request} x scheme spelling {lower, UPPER, Capitalised, mIxed} x {sip, sips} x user part {none, user, user:password} x host {IPv4, IPv6 lower case hex, IPv6 upper case hex (thorough: + IPv4-mapped)} x {no port, :5099} x parameters {none, ;lr, ;user=phone;ttl=5, ;method=OPTIONS, ?subject=hi as far as the reader's grammar allows them} x 8 endpoint configurations (datagram sets {UDP both families, all four, none, secure both families} x factories {both, none}; thorough 30); the reference sees only the generated (sips, ip, port) triple the text was rendered from. uri-param: the target URI carries ;transport= and / or ;maddr= - datagram sets {none, UDP/v4, UDP both, secure/v4, secure both, all four (thorough: + 4 mixed)} x insecure factory {absent, connects, refuses} x secure factory {absent, connects, refuses} (both registration orders) x pre-existing connection {none, insecure outbound to the destination, secure outbound to the destination (thorough: + secure outbound to the other port, secure inbound from the destination)} x {sip, sips} x {IPv4, IPv6} x {no port, :5099} x parameter shape {transport=tcp, udp, tls, TCP, sctp; maddr=host of the same family, of the other family; transport=tcp + maddr same family; transport=udp + maddr other family (thorough: all 8 transport values; maddr x {none, tcp, udp, tls})}; the reader {builder API, SipUri::from_str, Endpoint::parse_uri, received request line, received Contact name-addr}, scheme spelling, user part, other uri-parameters and the position of the routing parameters among them rotate with a multiplicative hash of the case number. Non-trivial additionally: honouring the transport= value would change the set of eligible candidates; a sips URI whose transport= value names an insecure candidate that is configured and would connect / is bound to the right family; a sips URI with maddr= and an insecure candidate present. followup: one driven request per case - datagram subsets x factories {none, both} x pre-existing connection {none, insecure outbound to the destination, secure outbound to the destination, insecure inbound from the destination} x {sip, sips} x {IPv4, IPv6} x target info {empty, secure pin, insecure pin} x script {OPTIONS polled 1.6 s, INVITE polled 1.6 s, INVITE answered 486 over V, INVITE answered 486 on the carrying transport and again over V 700 ms later from the peer's port + 1 (thorough: + 180, then 404 over V from port + 1)} with V over {the carrying transport, each configured datagram transport, the two transports outside the configuration, the pre-existing connection}; observed: every later request with the transaction's Call-ID (retransmissions, ACK, repeated ACK), its carrier and destination. sequence: 2..6 requests with varying URIs (2 hosts per family, ports default/5060/5061/5099) against one endpoint; transaction + target info of each request held or dropped at random, held ones released later, 40 s pauses expire unreferenced connections, kept target infos are re-used as pins, factories refuse per step, inbound connections from the destination appear. Observed: which mock's send() carried the request to which destination, which factory was asked to connect. Non-trivial = (sips target and at least one insecure candidate configured) or eligible candidates on at least two of the paths datagram / existing connection / factory; each step also draws the URI form (40 % built, 60 % one of the five text readers with random spelling; 5 in 17 with ;transport= {tcp/TCP 2, udp/UDP 1, tls/Tls 1, sctp/ws 1}, 1 in 8 with ;maddr= of the same / the other family, in front of or behind the other uri-parameters; never on a bare addr-spec Contact), the method (40 % INVITE) and, for 25 % of the steps, a follow-up script of 1..3 events (wait 300/600/1100/2100 ms; 180 / 200 / 302 / 404 / 486 / 603 delivered over the carrying transport, a configured or foreign datagram transport or any open connection, datagram responses from the destination's port or port + 1). Non-trivial additionally: a request with later transmissions whose target is sips, whose transport was pinned, or whose non-2xx final arrived over another transport than the request left on. route: one request per case - datagram sets {none, UDP both families, secure both families, all four} x factories {none, both, insecure only, secure only} (thorough: 8 x 5) x Request-URI {sip, sips} x {IPv4, IPv6} x header shape {decoy Contact / To only (3); one Route entry: {sip, sips} x {;lr, strict} x host {IPv4 proxy, IPv6 proxy, Request-URI host} x {no port, :5077}, with and without decoys (48); two entries, second {sip, sips};lr, as two headers / one comma list (96); one entry with ;transport={tcp, udp}: {sip, sips} x {;lr, strict} x host {IPv4 proxy, Request-URI host} (16)} x target info {empty, secure pin (thorough: + insecure pin)}; every third case an INVITE. pin-history: datagram sets {none, UDP+secure datagram IPv4, all four} x factories {none, both} (thorough 6 x 5) x target info {caller pins one of four transports outside the configuration (two of them report reliable()), caller pins an insecure / secure connection it opened to the destination, empty and filled in by a first successful request} x history of requests sent with the same target info object before the last one {none; OPTIONS whose send fails; INVITE whose send fails; OPTIONS ok, OPTIONS fails; OPTIONS fails, INVITE fails; INVITE ok; OPTIONS fails, OPTIONS ok} x last request {OPTIONS, INVITE} x {sip, sips} x {IPv4, IPv6}. sequence steps additionally draw: header shape (62 % no extra header, 25 % a route set of 1..2 random entries (1 in 3 with ;transport= tcp / udp / tls) + random decoys, 13 % decoys only), send fault for the first transmission (1 in 6), target info {empty; 1 in 5 the object kept from an earlier held request, used in place; 1 in 11 of the rest an own pin: external transport 0..3 or the connection the caller opened}, 1 in 13 an outbound connection the caller opens to the destination first. Non-trivial additionally: a route set + a sips URI (Request-URI or topmost entry) with an insecure candidate configured; a pinned request sent with a target info that has seen a failed send. sequence endpoints additionally draw the bound() address per configured datagram transport (half of the endpoints all concrete; else IPv4 {10.0.0.1, 0.0.0.0, 127.0.0.1} 1:1:1, IPv6 {fd00::1, [::], [::1], [::ffff:10.0.0.1]} 2:2:1:1). Distinct by hash of the case.",
+        rule: "config: every combination of {UDP/v4, UDP/v6, secure datagram/v4, secure datagram/v6} subsets x insecure factory {absent, connects, refuses} x secure factory {absent, connects, refuses} (both registration orders when both are present) x pre-existing connection {none, insecure outbound to the destination, secure outbound to the destination, secure outbound to the same host other port, secure outbound to another host, secure inbound from the destination} (all held by a TpHandle) x {sip, sips} x {IPv4, IPv6 literal} x {no port, :5099} x target info {empty, pinned to a secure / an insecure transport outside the configuration with a foreign destination}; one OPTIONS request per configuration, each in its own paused-clock world. bound-addr: the same space with other bound() addresses of the datagram transports - every non-empty datagram subset x bind variant {IPv4: 10.0.0.1, 0.0.0.0, 127.0.0.1; IPv6: fd00::1, [::], [::1], [::ffff:10.0.0.1]} per family, shared by the insecure and the secure transport of the family (thorough: per transport), the all-concrete combination left to config x insecure factory {absent, connects, refuses} x secure factory {absent, connects, refuses} (both registration orders) x pre-existing connection {none, insecure outbound to the destination, secure outbound to the destination} x {sip, sips} x {IPv4, IPv6 literal} (thorough: x {no port, :5099}), empty target info; non-trivial additionally: no datagram transport of the destination's family is eligible while one of the other family bound to a wildcard / loopback / IPv4-mapped address fits the security requirement (only the family rule keeps the request off it). uri-text: the target URI is text read by ezk before it becomes the request target - reader {SipUri::from_str, Endpoint::parse_uri, request line / Contact name-addr / Contact addr-spec of a received request} x scheme spelling {lower, UPPER, Capitalised, mIxed} x {sip, sips} x user part {none, user, user:password} x host {IPv4, IPv6 lower case hex, IPv6 upper case hex (thorough: + IPv4-mapped)} x {no port, :5099} x parameters {none, ;lr, ;user=phone;ttl=5, ;method=OPTIONS, ?subject=hi as far as the reader's grammar allows them} x 8 endpoint configurations (datagram sets {UDP both families, all four, none, secure both families} x factories {both, none}; thorough 30); the reference sees only the generated (sips, ip, port) triple the text was rendered from. uri-param: the target URI carries ;transport= and / or ;maddr= - datagram sets {none, UDP/v4, UDP both, secure/v4, secure both, all four (thorough: + 4 mixed)} x insecure factory {absent, connects, refuses} x secure factory {absent, connects, refuses} (both registration orders) x pre-existing connection {none, insecure outbound to the destination, secure outbound to the destination (thorough: + secure outbound to the other port, secure inbound from the destination)} x {sip, sips} x {IPv4, IPv6} x {no port, :5099} x parameter shape {transport=tcp, udp, tls, TCP, sctp; maddr=host of the same family, of the other family; transport=tcp + maddr same family; transport=udp + maddr other family (thorough: all 8 transport values; maddr x {none, tcp, udp, tls})}; the reader {builder API, SipUri::from_str, Endpoint::parse_uri, received request line, received Contact name-addr}, scheme spelling, user part, other uri-parameters and the position of the routing parameters among them rotate with a multiplicative hash of the case number. Non-trivial additionally: honouring the transport= value would change the set of eligible candidates; a sips URI whose transport= value names an insecure candidate that is configured and would connect / is bound to the right family; a sips URI with maddr= and an insecure candidate present. followup: one driven request per case - datagram subsets x factories {none, both} x pre-existing connection {none, insecure outbound to the destination, secure outbound to the destination, insecure inbound from the destination} x {sip, sips} x {IPv4, IPv6} x target info {empty, secure pin, insecure pin} x script {OPTIONS polled 1.6 s, INVITE polled 1.6 s, INVITE answered 486 over V, INVITE answered 486 on the carrying transport and again over V 700 ms later from the peer's port + 1 (thorough: + 180, then 404 over V from port + 1)} with V over {the carrying transport, each configured datagram transport, the two transports outside the configuration, the pre-existing connection}; observed: every later request with the transaction's Call-ID (retransmissions, ACK, repeated ACK), its carrier and destination. sequence: 2..6 requests with varying URIs (2 hosts per family, ports default/5060/5061/5099/0/65535) against one endpoint; transaction + target info of each request held or dropped at random, held ones released later, 40 s pauses expire unreferenced connections, kept target infos are re-used as pins, factories refuse per step, inbound connections from the destination appear. Observed: which mock's send() carried the request to which destination, which factory was asked to connect. Non-trivial = (sips target and at least one insecure candidate configured) or eligible candidates on at least two of the paths datagram / existing connection / factory; each step also draws the URI form (40 % built, 60 % one of the five text readers with random spelling; 5 in 17 with ;transport= {tcp/TCP 2, udp/UDP 1, tls/Tls 1, sctp/ws 1}, 1 in 8 with ;maddr= of the same / the other family, in front of or behind the other uri-parameters; never on a bare addr-spec Contact), the method (40 % INVITE) and, for 25 % of the steps, a follow-up script of 1..3 events (wait 300/600/1100/2100 ms; 180 / 200 / 302 / 404 / 486 / 603 delivered over the carrying transport, a configured or foreign datagram transport or any open connection, datagram responses from the destination's port or port + 1). Non-trivial additionally: a request with later transmissions whose target is sips, whose transport was pinned, or whose non-2xx final arrived over another transport than the request left on. route: one request per case - datagram sets {none, UDP both families, secure both families, all four} x factories {none, both, insecure only, secure only} (thorough: 8 x 5) x Request-URI {sip, sips} x {IPv4, IPv6} x header shape {decoy Contact / To only (3); one Route entry: {sip, sips} x {;lr, strict} x host {IPv4 proxy, IPv6 proxy, Request-URI host} x {no port, :5077}, with and without decoys (48); two entries, second {sip, sips};lr, as two headers / one comma list (96); one entry with ;transport={tcp, udp}: {sip, sips} x {;lr, strict} x host {IPv4 proxy, Request-URI host} (16)} x target info {empty, secure pin (thorough: + insecure pin)}; every third case an INVITE. pin-history: datagram sets {none, UDP+secure datagram IPv4, all four} x factories {none, both} (thorough 6 x 5) x target info {caller pins one of four transports outside the configuration (two of them report reliable()), caller pins an insecure / secure connection it opened to the destination, empty and filled in by a first successful request} x history of requests sent with the same target info object before the last one {none; OPTIONS whose send fails; INVITE whose send fails; OPTIONS ok, OPTIONS fails; OPTIONS fails, INVITE fails; INVITE ok; OPTIONS fails, OPTIONS ok} x last request {OPTIONS, INVITE} x {sip, sips} x {IPv4, IPv6}. sequence steps additionally draw: header shape (62 % no extra header, 25 % a route set of 1..2 random entries (1 in 3 with ;transport= tcp / udp / tls) + random decoys, 13 % decoys only), send fault for the first transmission (1 in 6), target info {empty; 1 in 5 the object kept from an earlier held request, used in place; 1 in 11 of the rest an own pin: external transport 0..3 or the connection the caller opened}, 1 in 13 an outbound connection the caller opens to the destination first. Non-trivial additionally: a route set + a sips URI (Request-URI or topmost entry) with an insecure candidate configured; a pinned request sent with a target info that has seen a failed send. sequence endpoints additionally draw the bound() address per configured datagram transport (half of the endpoints all concrete; else IPv4 {10.0.0.1, 0.0.0.0, 127.0.0.1} 1:1:1, IPv6 {fd00::1, [::], [::1], [::ffff:10.0.0.1]} 2:2:1:1). Distinct by hash of the case.",
         assumptions: vec![
             "the address family of a datagram transport is the family of the socket address it reports as bound(): 0.0.0.0 / 127.0.0.1 are IPv4, [::] / [::1] / [::ffff:10.0.0.1] are IPv6 (that a [::] socket may be dual-stack in the kernel is not part of the statement: the destination is handed to the transport unmapped); a wildcard / loopback bound address does not make a transport of the destination's family ineligible (liveness is asserted with it like with a concrete one); the bound port plays no role",
             "IP-literal targets only (no DNS: the resolver has no name servers); mock streams stand in for TCP/TLS (no handshake); maddr= values are IP literals",
